@@ -36,12 +36,20 @@ void _orc_compiler_init(void);
  * should be called before using any other Orc function.
  * Subsequent calls to this function have no effect.
  */
+#ifdef ORC_VERIF_HOOKS
+/* Verification hook: called at suspension points between critical sections */
+void (*orc_verif_yield_hook) (int point) = NULL;
+#endif
+
 void
 orc_init (void)
 {
   static int inited = FALSE;
 
   if (!inited) {
+#ifdef ORC_VERIF_HOOKS
+    if (orc_verif_yield_hook) orc_verif_yield_hook (0);
+#endif
     orc_global_mutex_lock ();
     if (!inited) {
       ORC_ASSERT(sizeof(OrcExecutor) == sizeof(OrcExecutorAlt));
